@@ -33,8 +33,8 @@ ASSUMPTIONS = [
     "default component names of a single-row multi-column plate are not constrained (the statement only names "
     "multi-row plates, multi-column troughs and single-well labware)",
     "fractions are compared with 1e-9 absolute tolerance",
-    "default names of a trough built through the legacy signature Labware(..., rows=1, virtual_rows=n) (which warns "
-    "that robotools.Trough should be used) are not constrained either; such labware takes part in all other rules",
+    "a trough built through the legacy signature Labware(..., rows=1, virtual_rows=n) is a multi-column trough like "
+    "any other: its default names must be distinct per column",
 ]
 HOOK_RULES = ("remove_keeps_composition", "composition_shape", "monitor_error")
 
